@@ -798,3 +798,180 @@ Proof.
   { destruct (c_queued s); [exact H|apply commence_paragraph_good; exact H]. }
   intros s1 I1. apply conclude_paragraph_good. exact I1.
 Qed.
+
+(* ================================================================== *)
+(* The walk                                                             *)
+(* ================================================================== *)
+Lemma anode_ind' (P : anode -> Prop) :
+  (forall tl, P (AX tl)) -> (forall e ks, Forall P ks -> P (AE e ks)) -> forall t, P t.
+Proof.
+  intros HX HE.
+  refine (fix IH (t : anode) : P t :=
+            match t with
+            | AX tl => HX tl
+            | AE e ks =>
+                HE e ks ((fix go (l : list anode) : Forall P l :=
+                            match l with
+                            | [] => Forall_nil P
+                            | k :: r => Forall_cons k (IH k) (go r)
+                            end) ks)
+            end).
+Qed.
+
+(* the two local loops of [walk], named *)
+Section Loops.
+  Variables (v : env) (path : list nat).
+  Fixpoint below_loop (l : list anode) (i : nat) : res (list (list tok)) :=
+    match l with
+    | [] => Ok []
+    | k :: r =>
+        sk <- walk v (i :: path) k init_cst ;;
+        sk' <- finish v sk ;;
+        ps <- tree_par_toks (c_tree sk') ;;
+        rest <- below_loop r (S i) ;;
+        Ok (ps ++ rest)
+    end.
+  Fixpoint kids_loop (l : list anode) (i : nat) (s : cst) : res cst :=
+    match l with
+    | [] => Ok s
+    | k :: r => s' <- walk v (i :: path) k s ;; kids_loop r (S i) s'
+    end.
+End Loops.
+
+Lemma walk_AE v path e ks s :
+  walk v path (AE e ks) s =
+  (let d := elem_depth (AE e ks) in
+   s1 <- set_caret d (Some (e_local e)) s ;;
+   body <- (if str_eqb (e_ptag e) tag_HYPERLINK then below_loop v path ks O else Ok []) ;;
+   '(s2, recurse) <- open_tag v path (AE e ks) e ks (join_toks par_sep body) s1 ;;
+   s3 <- (if recurse : bool then kids_loop v path ks O s2 else Ok s2) ;;
+   s4 <- close_tag v e ks s3 ;;
+   set_caret d None s4).
+Proof. reflexivity. Qed.
+
+Definition walk_good_at (v : env) (t : anode) : Prop :=
+  forall path s, Inv s -> good Inv (walk v path t s).
+
+Lemma below_loop_nce v path ks :
+  Forall (walk_good_at v) ks -> forall i, nce (below_loop v path ks i).
+Proof.
+  induction 1 as [|k r Hk Hr IH]; intro i; cbn [below_loop].
+  - exact I.
+  - apply good_bind with (Q := Inv); [apply Hk; exact init_inv|]. intros sk Ik.
+    apply good_bind with (Q := Inv); [apply finish_good; exact Ik|]. intros sk' Ik'.
+    apply nce_bind; [apply tree_par_toks_nce|]. intro ps.
+    apply nce_bind; [apply IH|]. intro rest. exact I.
+Qed.
+
+Lemma kids_loop_good v path ks :
+  Forall (walk_good_at v) ks -> forall i s, Inv s -> good Inv (kids_loop v path ks i s).
+Proof.
+  induction 1 as [|k r Hk Hr IH]; intros i s Hs; cbn [kids_loop].
+  - exact Hs.
+  - apply good_bind with (Q := Inv); [apply Hk; exact Hs|]. intros s' Hs'.
+    apply IH. exact Hs'.
+Qed.
+
+Lemma walk_good v : forall t, walk_good_at v t.
+Proof.
+  apply anode_ind'.
+  - intros tl path s Hs. exact Hs.
+  - intros e ks HF path s Hs. rewrite walk_AE. cbv zeta.
+    apply good_bind with (Q := Inv).
+    { apply set_caret_good; [apply elem_depth_range|exact Hs]. }
+    intros s1 I1.
+    apply good_bind with (Q := any).
+    { destruct (str_eqb (e_ptag e) tag_HYPERLINK); [apply below_loop_nce; exact HF|exact I]. }
+    intros body _.
+    apply good_bind with (Q := Inv1); [apply open_tag_good; exact I1|].
+    intros [s2 rec] I2. unfold Inv1 in I2. cbn [fst] in I2.
+    apply good_bind with (Q := Inv).
+    { destruct rec; [apply kids_loop_good; assumption|exact I2]. }
+    intros s3 I3.
+    apply good_bind with (Q := Inv); [apply close_tag_good; exact I3|].
+    intros s4 I4.
+    apply set_caret_good; [apply elem_depth_range|exact I4].
+Qed.
+
+Lemma walk_inv : forall v t path s s', Inv s -> walk v path t s = Ok s' -> Inv s'.
+Proof. intros v t path s s' H E. exact (good_ok_inv _ _ _ (walk_good v t path s H) E). Qed.
+
+Lemma finish_inv : forall v s s', Inv s -> finish v s = Ok s' -> Inv s'.
+Proof. intros v s s' H E. exact (good_ok_inv _ _ _ (finish_good v s H) E). Qed.
+
+Lemma collect_good v path t : good Inv (collect_from v path t).
+Proof.
+  unfold collect_from.
+  apply good_bind with (Q := Inv); [apply walk_good; exact init_inv|].
+  intros s Hs. apply finish_good. exact Hs.
+Qed.
+
+Lemma collect_shape : forall v path t s, collect_from v path t = Ok s -> tree_ok (c_tree s).
+Proof.
+  intros v path t s E. exact (proj1 (good_ok_inv _ _ _ (collect_good v path t) E)).
+Qed.
+
+Lemma walk_no_caret_error : forall v t path s, Inv s -> walk v path t s <> Err CaretDepthError.
+Proof. intros v t path s H. exact (good_not_caret _ _ (walk_good v t path s H)). Qed.
+
+Lemma collect_no_caret_error : forall v path t, collect_from v path t <> Err CaretDepthError.
+Proof. intros v path t. exact (good_not_caret _ _ (collect_good v path t)). Qed.
+
+(* ================================================================== *)
+(* The final (oldest-first) tree                                        *)
+(* ================================================================== *)
+Lemma forallb_rev {A} (P : A -> bool) l : forallb P (rev l) = forallb P l.
+Proof.
+  induction l as [|x l IH]; [reflexivity|].
+  cbn [rev forallb]. rewrite forallb_app, IH. cbn [forallb].
+  rewrite andb_true_r. apply andb_comm.
+Qed.
+
+Lemma unrev_node_shape : forall n d, shapeb d (unrev n) = shapeb d n.
+Proof.
+  fix IH 1. intros [l|p] d.
+  - cbn [unrev]. rewrite !shapeb_NL. f_equal. rewrite forallb_rev.
+    induction l as [|x l IHl]; [reflexivity|].
+    cbn [map forallb]. rewrite IH, IHl. reflexivity.
+  - reflexivity.
+Qed.
+
+Lemma unrev_shape : forall l, tree_ok l -> tree_ok (unrev_list l).
+Proof.
+  unfold tree_ok, unrev_list. intros l H. rewrite forallb_rev.
+  induction l as [|x l IH]; [reflexivity|].
+  cbn [map forallb] in H |- *. apply andb_true_iff in H. destruct H as [Hx Hl].
+  rewrite unrev_node_shape, Hx, (IH Hl). reflexivity.
+Qed.
+
+(* paragraphs of a collected tree, in final order, sit at depth 4 *)
+Lemma collect_unrev_shape : forall v path t s,
+  collect_from v path t = Ok s -> tree_ok (unrev_list (c_tree s)).
+Proof. intros v path t s E. apply unrev_shape. exact (collect_shape v path t s E). Qed.
+
+Print Assumptions init_inv.
+Print Assumptions set_caret_inv.
+Print Assumptions elem_depth_range.
+Print Assumptions commence_paragraph_inv.
+Print Assumptions conclude_paragraph_inv.
+Print Assumptions ensure_par_inv.
+Print Assumptions upd_open_runs_inv.
+Print Assumptions commence_run_inv.
+Print Assumptions add_toks_inv.
+Print Assumptions add_text_into_open_run_inv.
+Print Assumptions add_code_into_open_run_inv.
+Print Assumptions insert_text_as_new_run_inv.
+Print Assumptions queue_run_for_next_paragraph_inv.
+Print Assumptions start_comment_range_inv.
+Print Assumptions end_comment_range_inv.
+Print Assumptions close_table_cell_inv.
+Print Assumptions open_tag_inv.
+Print Assumptions close_tag_inv.
+Print Assumptions anode_ind'.
+Print Assumptions walk_inv.
+Print Assumptions finish_inv.
+Print Assumptions collect_shape.
+Print Assumptions unrev_shape.
+Print Assumptions collect_unrev_shape.
+Print Assumptions walk_no_caret_error.
+Print Assumptions collect_no_caret_error.
